@@ -376,7 +376,9 @@ impl<'a> Run<'a> {
         let before_list = self.listing.clone();
         let before = self.by_id();
         let n = before_list.len() as u64;
-        let budget = 64 * (max_visits(&before_list) + n + 8);
+        // hard cap: a state outside the generator's bounded-rounds precondition (reachable only
+        // through a defect elsewhere) must not turn into an unbounded run
+        let budget = (64 * (max_visits(&before_list).min(1 << 40) + n + 8)).min(300_000);
         self.hooks.begin_op(budget);
         let taker_lib = taker.to_lib();
         let r = guarded(|| self.level.match_order(qty, taker_lib, &self.generator));
